@@ -39,6 +39,10 @@ func (x *Exec) doAlloc(fr *frame, st *State, in *ssa.Alloc) {
 
 func (x *Exec) elemRef(et types.Type, arr, idx smt.T) smt.T {
 	f := x.ctx.Fun("ea$"+typeName(et), []string{smt.Int, smt.Int}, smt.Int)
+	if _, ok := x.axioms["ax:"+f]; !ok {
+		x.ctx.Fun("fresh$", []string{smt.Int}, smt.Bool)
+		x.axioms["ax:"+f] = "(assert (forall ((r!a Int) (i!a Int)) (! (and (= (fresh$ (" + f + " r!a i!a)) (fresh$ r!a)) (=> (> r!a 0) (> (" + f + " r!a i!a) 0))) :pattern ((" + f + " r!a i!a)))))"
+	}
 	return smt.App(smt.Int, f, arr, idx)
 }
 
